@@ -252,6 +252,13 @@ def run(ctx):
     rule_accessors(ctx, r1)
     r2 = ctx.rule("R2", "the config sub-commands read, write and save through FileConfig", min_instances=3)
     rule_cli_commands(ctx, r2)
+    from .evalhelpers import cli_main_location_witness
+    n_ok, diffs, unsup = cli_main_location_witness(ctx)
+    if unsup is None:
+        r2.check(not diffs, "src/gwf/cli.py::main::config-location", f"the configuration file is <directory of the workflow file>/.gwfconf.json ({n_ok} witness evaluations)",
+                 "; ".join(diffs[:2]) + " - the settings of a project must live next to its workflow file", "src/gwf/cli.py:1")
+    else:
+        r2.info("src/gwf/cli.py::main::config-location", f"not evaluated ({unsup}); C19.R2 decides the location structurally")
     r3 = ctx.rule("R3", "precedence flag > project configuration > default for backend, colour and verbosity; every documented setting is read", min_instances=6)
     rule_precedence(ctx, r3)
     r4 = ctx.rule("R4", "the selected backend, and only it, receives its backend.<name>.* settings and uses them", min_instances=8)
